@@ -86,13 +86,16 @@ func opGhost() error {
 		return fmt.Errorf("HARNESS-ERROR dial: %v", err)
 	}
 	defer c.Close()
-	_ = c.SetReadDeadline(time.Now().Add(5 * time.Second))
+	_ = c.SetReadDeadline(time.Now().Add(60 * time.Second))
 	gotVer := false
 	for !gotVer {
 		m, _, err := wire.ReadMessage(c, wire.ProtocolVersion, sr.params.Net)
 		if err != nil {
 			if _, ok := err.(*wire.MessageError); ok {
 				continue
+			}
+			if ne, ok := err.(net.Error); ok && ne.Timeout() {
+				return fmt.Errorf("HARNESS-ERROR: no answer from the service within the wait (busy machine?): %v", err)
 			}
 			admitted, reason = false, "closed during the handshake: "+err.Error()
 			break
@@ -105,12 +108,15 @@ func opGhost() error {
 		_ = wire.WriteMessage(c, wire.NewMsgVerAck(), wire.ProtocolVersion, sr.params.Net)
 		// still there after the server has processed the announcement?  ping until a pong comes back or the connection is closed
 		_ = wire.WriteMessage(c, wire.NewMsgPing(4242), wire.ProtocolVersion, sr.params.Net)
-		_ = c.SetReadDeadline(time.Now().Add(5 * time.Second))
+		_ = c.SetReadDeadline(time.Now().Add(60 * time.Second))
 		for {
 			m, _, err := wire.ReadMessage(c, wire.ProtocolVersion, sr.params.Net)
 			if err != nil {
 				if _, ok := err.(*wire.MessageError); ok {
 					continue
+				}
+				if ne, ok := err.(net.Error); ok && ne.Timeout() {
+					return fmt.Errorf("HARNESS-ERROR: no answer from the service within the wait (busy machine?): %v", err)
 				}
 				admitted, reason = false, "disconnected by the service after the handshake: "+err.Error()
 				break
